@@ -35,24 +35,28 @@ def checkChrom (bed : Bool) (len : Nat) : List Item → Bool
   | [v] => check bed len v none
   | v :: w :: rest => check bed len v (some w) && checkChrom bed len (w :: rest)
 
-/-- the serial source over a stream already grouped into chromosome runs `(name, items)`;
-    `sizes` looks the chromosome up, `le` is the string order used for the sortedness check -/
+/-- the sources over a stream cut into chromosome runs `(name, items)` in file order; `sizes` looks the chromosome up,
+    `le` is the string order used for the sortedness check, `seen` the chromosomes that already had a run: a chromosome
+    that comes back (the input is not grouped) is refused when its second run starts (D23; as found it was accepted and
+    made the two-pass writer panic) -/
 def runs (bed allowOOO : Bool) (sizes : Nat → Option Nat) (le : Nat → Nat → Bool) :
-    Option Nat → List (Nat × List Item) → Option Err
-  | _, [] => none
-  | prev, (c, items) :: rest =>
+    Option Nat → List Nat → List (Nat × List Item) → Option Err
+  | _, _, [] => none
+  | prev, seen, (c, items) :: rest =>
     match prev with
-    | some p => if !allowOOO && le c p then some .notSorted else goChrom c items rest
-    | none => goChrom c items rest
+    | some p => if !allowOOO && le c p then some .notSorted else goChrom c items rest seen
+    | none => goChrom c items rest seen
 where
-  goChrom (c : Nat) (items : List Item) (rest : List (Nat × List Item)) : Option Err :=
+  goChrom (c : Nat) (items : List Item) (rest : List (Nat × List Item)) (seen : List Nat) : Option Err :=
     match sizes c with
     | none => some .invalidChromosome
-    | some len => if checkChrom bed len items then runs bed allowOOO sizes le (some c) rest else some .invalidInput
+    | some len =>
+      if seen.contains c then some .invalidInput
+      else if checkChrom bed len items then runs bed allowOOO sizes le (some c) (c :: seen) rest else some .invalidInput
 
 def write (bed allowOOO : Bool) (sizes : Nat → Option Nat) (le : Nat → Nat → Bool)
     (stream : List (Nat × List Item)) : Option Err :=
-  if stream = [] then some .empty else runs bed allowOOO sizes le none stream
+  if stream = [] then some .empty else runs bed allowOOO sizes le none [] stream
 
 /-- a run has a defect if one of its items violates a precondition with respect to its successor -/
 def BadItem (bed : Bool) (len : Nat) : List Item → Prop
@@ -78,38 +82,134 @@ theorem checkChrom_false_of_bad (bed : Bool) (len : Nat) : ∀ items, BadItem be
     precondition — at any position of any run — the write is refused (whatever else is wrong earlier
     only changes which error is reported). -/
 theorem refuses (bed allowOOO : Bool) (sizes : Nat → Option Nat) (le : Nat → Nat → Bool) :
-    ∀ (stream : List (Nat × List Item)) (prev : Option Nat),
+    ∀ (stream : List (Nat × List Item)) (prev : Option Nat) (seen : List Nat),
       (∃ r ∈ stream, sizes r.1 = none ∨ ∃ len, sizes r.1 = some len ∧ BadItem bed len r.2) →
-      (runs bed allowOOO sizes le prev stream).isSome := by
+      (runs bed allowOOO sizes le prev seen stream).isSome := by
   intro stream
   induction stream with
-  | nil => intro prev h; obtain ⟨r, hr, _⟩ := h; simp at hr
+  | nil => intro prev seen h; obtain ⟨r, hr, _⟩ := h; simp at hr
   | cons x rest ih =>
-    intro prev h
+    intro prev seen h
     obtain ⟨c, items⟩ := x
-    have hgo : (runs.goChrom bed allowOOO sizes le c items rest).isSome := by
+    have hgo : (runs.goChrom bed allowOOO sizes le c items rest seen).isSome := by
       unfold runs.goChrom
       cases hs : sizes c with
       | none => simp
       | some len =>
         simp only
-        by_cases hc : checkChrom bed len items = true
-        · simp only [hc, if_true]
-          obtain ⟨r, hr, hbad⟩ := h
-          simp only [List.mem_cons] at hr
-          rcases hr with rfl | hr
-          · rcases hbad with hb | ⟨l, hl, hb⟩
-            · simp [hs] at hb
-            · simp only [hs, Option.some.injEq] at hl; subst hl
-              have := checkChrom_false_of_bad bed len items hb
-              simp [this] at hc
-          · exact ih (some c) ⟨r, hr, hbad⟩
-        · simp [hc]
+        split
+        · simp
+        · by_cases hc : checkChrom bed len items = true
+          · simp only [hc, if_true]
+            obtain ⟨r, hr, hbad⟩ := h
+            simp only [List.mem_cons] at hr
+            rcases hr with rfl | hr
+            · rcases hbad with hb | ⟨l, hl, hb⟩
+              · simp [hs] at hb
+              · simp only [hs, Option.some.injEq] at hl; subst hl
+                have := checkChrom_false_of_bad bed len items hb
+                simp [this] at hc
+            · exact ih (some c) (c :: seen) ⟨r, hr, hbad⟩
+          · simp [hc]
     unfold runs
     cases prev with
     | none => exact hgo
     | some p =>
       simp only
+      split
+      · simp
+      · exact hgo
+
+/-- **Not grouped.** A chromosome that already had a run (`c ∈ seen`) and comes back is refused — wherever the second run
+    sits in the stream, whichever source delivers it. -/
+theorem refuses_not_grouped (bed allowOOO : Bool) (sizes : Nat → Option Nat) (le : Nat → Nat → Bool) :
+    ∀ (stream : List (Nat × List Item)) (prev : Option Nat) (seen : List Nat),
+      (∃ r ∈ stream, r.1 ∈ seen) → (runs bed allowOOO sizes le prev seen stream).isSome := by
+  intro stream
+  induction stream with
+  | nil => intro prev seen h; obtain ⟨r, hr, _⟩ := h; simp at hr
+  | cons x rest ih =>
+    intro prev seen h
+    obtain ⟨c, items⟩ := x
+    have hgo : (runs.goChrom bed allowOOO sizes le c items rest seen).isSome := by
+      unfold runs.goChrom
+      cases hs : sizes c with
+      | none => simp
+      | some len =>
+        simp only
+        split
+        · simp
+        · rename_i hseen
+          by_cases hc : checkChrom bed len items = true
+          · simp only [hc, if_true]
+            obtain ⟨r, hr, hin⟩ := h
+            simp only [List.mem_cons] at hr
+            rcases hr with rfl | hr
+            · exact absurd (by simpa using hin) hseen
+            · exact ih (some c) (c :: seen) ⟨r, hr, List.mem_cons_of_mem _ hin⟩
+          · simp [hc]
+    unfold runs
+    cases prev with
+    | none => exact hgo
+    | some p =>
+      simp only
+      split
+      · simp
+      · exact hgo
+
+theorem runs_cons (bed allowOOO : Bool) (sizes : Nat → Option Nat) (le : Nat → Nat → Bool) (prev : Option Nat) (seen : List Nat)
+    (c : Nat) (items : List Item) (rest : List (Nat × List Item)) :
+    runs bed allowOOO sizes le prev seen ((c, items) :: rest) =
+      match prev with
+      | some p => if !allowOOO && le c p then some .notSorted else runs.goChrom bed allowOOO sizes le c items rest seen
+      | none => runs.goChrom bed allowOOO sizes le c items rest seen := by
+  cases prev <;> simp [runs]
+
+/-- … in particular a stream in which some chromosome has two runs is refused -/
+theorem refuses_repeated_chromosome (bed allowOOO : Bool) (sizes : Nat → Option Nat) (le : Nat → Nat → Bool)
+    (pre mid post : List (Nat × List Item)) (c : Nat) (i1 i2 : List Item) (prev : Option Nat) (seen : List Nat) :
+    (runs bed allowOOO sizes le prev seen (pre ++ (c, i1) :: (mid ++ (c, i2) :: post))).isSome := by
+  induction pre generalizing prev seen with
+  | nil =>
+    simp only [List.nil_append]
+    have hgo : (runs.goChrom bed allowOOO sizes le c i1 (mid ++ (c, i2) :: post) seen).isSome := by
+      unfold runs.goChrom
+      cases hs : sizes c with
+      | none => simp
+      | some len =>
+        simp only
+        split
+        · simp
+        · split
+          · exact refuses_not_grouped bed allowOOO sizes le _ (some c) (c :: seen) ⟨(c, i2), by simp, by simp⟩
+          · simp
+    rw [runs_cons]
+    cases prev with
+    | none => exact hgo
+    | some p =>
+      (try simp only)
+      split
+      · simp
+      · exact hgo
+  | cons x pre ih =>
+    obtain ⟨d, items⟩ := x
+    simp only [List.cons_append]
+    have hgo : (runs.goChrom bed allowOOO sizes le d items (pre ++ (c, i1) :: (mid ++ (c, i2) :: post)) seen).isSome := by
+      unfold runs.goChrom
+      cases hs : sizes d with
+      | none => simp
+      | some len =>
+        simp only
+        split
+        · simp
+        · split
+          · exact ih (some d) (d :: seen)
+          · simp
+    rw [runs_cons]
+    cases prev with
+    | none => exact hgo
+    | some p =>
+      (try simp only)
       split
       · simp
       · exact hgo
@@ -120,25 +220,32 @@ theorem refuses_empty (bed allowOOO : Bool) (sizes : Nat → Option Nat) (le : N
 /-- chromosome order: with sorted input required, a run whose name is not greater than its predecessor's
     is refused (if nothing earlier already was) -/
 theorem refuses_chrom_order (bed : Bool) (sizes : Nat → Option Nat) (le : Nat → Nat → Bool)
-    (p c : Nat) (items : List Item) (rest : List (Nat × List Item)) (h : le c p = true) :
-    runs bed false sizes le (some p) ((c, items) :: rest) = some .notSorted := by
+    (p c : Nat) (items : List Item) (rest : List (Nat × List Item)) (seen : List Nat) (h : le c p = true) :
+    runs bed false sizes le (some p) seen ((c, items) :: rest) = some .notSorted := by
   simp [runs, h]
 
-/-- acceptance: a stream of known chromosomes in order whose items satisfy every precondition is accepted -/
+/-- acceptance: a stream of known chromosomes, each with ONE run, whose items satisfy every precondition is accepted -/
 theorem accepts (bed allowOOO : Bool) (sizes : Nat → Option Nat) (le : Nat → Nat → Bool) :
-    ∀ (stream : List (Nat × List Item)) (prev : Option Nat),
+    ∀ (stream : List (Nat × List Item)) (prev : Option Nat) (seen : List Nat),
       (∀ r ∈ stream, ∃ len, sizes r.1 = some len ∧ checkChrom bed len r.2 = true) →
+      (stream.map (·.1)).Nodup → (∀ r ∈ stream, r.1 ∉ seen) →
       allowOOO = true →
-      runs bed allowOOO sizes le prev stream = none := by
+      runs bed allowOOO sizes le prev seen stream = none := by
   intro stream
   induction stream with
-  | nil => intro prev _ _; simp [runs]
+  | nil => intro prev seen _ _ _ _; simp [runs]
   | cons x rest ih =>
-    intro prev h ha
+    intro prev seen h hnd hns ha
     obtain ⟨c, items⟩ := x
     obtain ⟨len, hl, hc⟩ := h (c, items) (by simp)
-    have hrest := ih (some c) (fun r hr => h r (by simp [hr])) ha
+    simp only [List.map_cons, List.nodup_cons] at hnd
+    have hcs : c ∉ seen := hns (c, items) (by simp)
+    have hrest := ih (some c) (c :: seen) (fun r hr => h r (by simp [hr])) hnd.2
+      (fun r hr => by
+        have h1 := hns r (by simp [hr])
+        have h2 : r.1 ≠ c := fun e => hnd.1 (by rw [← e]; exact List.mem_map_of_mem hr)
+        simp [h1, h2]) ha
     subst ha
-    cases prev <;> simp [runs, runs.goChrom, hl, hc, hrest]
+    cases prev <;> simp [runs, runs.goChrom, hl, hc, hcs, hrest]
 
 end VL
